@@ -87,3 +87,42 @@ class encrypt_roundtrip:
         s = max(1, s % n)
         pw = rng.choice(['TestingOneTwoThree', 'Satoshi', 'a', 'päss wörd', '\U0001f4a9'])
         return {'secret': s, 'compressed': rng.random() < 0.7, 'password': pw, 'other': pw + rng.choice(['', 'x', ' '])}
+
+
+from spec import bip38 as _sp38
+
+_PASSPHRASES = ['TestingOneTwoThree', 'Satoshi', 'pass phrase', 'ϓ\u0000\U00010400\U0001f4a9', 'ﬁne №5', 'x²', 'ＡＢＣ', 'Å', 'Å', 'Ωhm']
+
+
+def _salt(rng, n=8):
+    while True:
+        s = bytes(rng.getrandbits(8) for _ in range(n))
+        if not all(chr(c) in '0123456789abcdefABCDEF' for c in s):       # to_bytes would read an all-hex-digit salt as hex text (assumed away)
+            return s
+
+
+@contract('bitcoinlib.keys.bip38_intermediate_password', case='spec-no-lot', props=('C15',))
+class intermediate_spec_nolot:
+    """Without lot/sequence the intermediate code is the BIP38 one for every passphrase and every 8-byte owner salt (NFC normalisation,
+    scrypt parameters, magic bytes, pass point, Base58Check)."""
+    params = {'passphrase': Str, 'owner_salt': Bytes(8)}
+    kwargs = {'lot': None, 'sequence': None}
+
+    def result_is(passphrase, owner_salt):
+        return _sp38.intermediate_code(passphrase, owner_salt, None, None)
+
+    def sample(rng):
+        return {'passphrase': rng.choice(_PASSPHRASES), 'owner_salt': _salt(rng)}
+
+
+@contract('bitcoinlib.keys.bip38_intermediate_password', case='spec-lot', props=('C15',))
+class intermediate_spec_lot:
+    """With lot and sequence (sequence >= 1: the library refuses sequence 0, which BIP38 allows - a refusal, not a wrong code) the
+    intermediate code is the BIP38 one; only the first 4 salt bytes are used."""
+    params = {'passphrase': Str, 'owner_salt': Bytes(8), 'lot': Int(100000, 999999), 'sequence': Int(1, 4095)}
+
+    def result_is(passphrase, owner_salt, lot, sequence):
+        return _sp38.intermediate_code(passphrase, owner_salt, lot, sequence)
+
+    def sample(rng):
+        return {'passphrase': rng.choice(_PASSPHRASES), 'owner_salt': _salt(rng), 'lot': rng.randint(100000, 999999), 'sequence': rng.randint(1, 4095)}
